@@ -15,6 +15,10 @@ names; a second Algorithm / evaluator may be built on the same Problem before or
 The model ignores both (the unchanged code never reads a cost name; self.n only decides append / overwrite, and both m+1 and m+2 append
 for a design with m costs); the oracle stays at the property text: m user objectives + 1.
 
+Configuration changed between construction and use (red-team round 6): problem.parameters is rebound to a new list / slice-assigned /
+edited in place after the Algorithm and its evaluator exist (other tolerances, another box), before the first batch or between batches;
+the model (Run/C14Run.v wc_hist_staged) gets the tolerances current at each evaluate() call, the oracle displaces by those.
+
 Transient failures: the harness's objective raises RuntimeError / TimeoutError at scripted GLOBAL call numbers
 (on designs and on neighbours, runs of 1..4 consecutive numbers, never 5); Job handles them by re-drawing the
 individual (gen_vector, recorded through a proxy of artap.job.VectorAndNumbers); the tape (call number, re-drawn
@@ -59,7 +63,10 @@ TRUSTED = [
     "Problem.evaluate and of the evaluator instance's run()",
 ]
 ASSUMPTIONS = [
-    "serial evaluation (options['max_processes'] = 1); the parallel path is property C07",
+    "serial evaluation (options['max_processes'] = 1) for the model comparison; the parallel path is property C07 (a small stream with "
+    "max_processes 2..4 is judged by the direct oracle only: the order of the objective calls is then not determined)",
+    "the parameter tolerance of a design is the 'tol' problem.parameters holds at the time of the evaluate() call that builds its neighbours "
+    "(problem.parameters may be rebound or edited after the algorithm was built: the model is run with the list current at each call)",
     "the theorems about call logs / budgets, resubmission and pre-evaluated designs are stated for runs without transient failures (empty "
     "failure tape); C14_worstcase_with_transient_failures / C14_gradient_with_transient_failures hold for every tape and batches of fresh designs",
     "C14_worstcase_cost_shape / _processing_and_calls / C14_gradient_with_resubmission cover batches that contain fresh designs, designs "
@@ -110,6 +117,47 @@ NAMES = ["sensitivity", "sensitivity", "sensitivity", "gradient", "feasible", "F
 # or after the one that evaluates (same evaluator type or the other one), or used alternately with it batch by batch.  Every
 # evaluator constructor appends {'name': 'sensitivity'} to problem.costs, so the one built second has self.n = m + 2.
 SECONDS = ["before", "after", "alternate", "before_other", "after_other"]
+
+
+# red-team round 6 (RT6_C14_1): problem.parameters re-parametrised AFTER the Algorithm / evaluator objects exist (a second stage with
+# tighter tolerances, another box): before the first batch or between batches; by REBINDING problem.parameters to a new list of new
+# dicts, to a new list of the same (edited) dicts, by slice assignment into the same list, or by editing the dicts in place.  The
+# neighbours of a design are displaced by the tolerances problem.parameters holds when it is evaluated.
+HOWS = ["rebind", "rebind", "rebind", "rebind_same_dicts", "inplace", "slice"]
+BOXES = [[-2.0, 3.0], [-5.0, 5.0], [-1.0, 1.0], [0.0, 10.0], [-100.0, 100.0], [-2.0, 3.0]]
+
+
+def gen_stages(rng, nb, n, tols, p0=0.6, later=0.45, bounds=0.5):
+    """per batch: None or {'how', 'tols', 'bounds'} = what is done to problem.parameters right before that evaluate() call"""
+    stages = [None] * nb
+    idx = [bi for bi in range(nb) if rng.random() < (p0 if bi == 0 else later)] or [rng.randrange(nb)]
+    cur = list(tols)
+    for bi in idx:
+        new = [rng.choice(TOLS) for _ in range(n)]
+        if rng.random() < 0.15:
+            new = list(cur)                 # same tolerances: only new objects / another box (a later in-place stage edits the NEW dicts)
+        elif new == cur:
+            i = rng.randrange(n)
+            new[i] = rng.choice([t for t in TOLS if t != cur[i]])
+        stages[bi] = {"how": rng.choice(HOWS), "tols": new,
+                      "bounds": [list(rng.choice(BOXES)) for _ in range(n)] if rng.random() < bounds else None}
+        cur = new
+    return stages
+
+
+def tols_at(case, bi):
+    """the tolerances problem.parameters holds when batch bi is evaluated"""
+    cur = case["tols"]
+    for k, st in enumerate(case.get("stages") or []):
+        if k > bi:
+            break
+        if st:
+            cur = st["tols"]
+    return cur
+
+
+def tol_value(case, t):
+    return int(t) if case["int_tol"] and float(t) == int(t) and t != 0 else t
 
 
 def gen_names(rng, m):
@@ -261,7 +309,8 @@ def gen_case(rng, forced=None):
         # the evaluator built second has self.n = m + 2: a design it processes AGAIN gets a second extra entry in the unchanged code
         # (candidate finding, probed on every run: coverage.input_distribution.second_evaluator_resubmission_probe, never judged)
         second = "after" if second == "before" else "after_other" if second == "before_other" else None
-    return {"mode": "direct", "names": names, "second": second, "fails": fails, "seed": forced.get("seed", rng.randrange(10 ** 6)), "wc": wc, "n": n, "m": m, "tols": tols, "objs": objs, "again": again, "pre": pre, "flags": flags,
+    stages = forced.get("stages", gen_stages(rng, len(batches), n, tols) if gen and rng.random() < forced.get("p_stages", 0.3) else None)
+    return {"mode": "direct", "names": names, "second": second, "stages": stages, "procs": forced.get("procs", 1), "fails": fails, "seed": forced.get("seed", rng.randrange(10 ** 6)), "wc": wc, "n": n, "m": m, "tols": tols, "objs": objs, "again": again, "pre": pre, "flags": flags,
             "criteria": forced.get("criteria", [rng.choice(["minimize", "maximize"]) for _ in range(m)]),
             # a re-drawn design holds a Python list: with numpy vectors the objective would return numpy.float64 for some designs
             # and exact floats for others (sum() then switches algorithm per design): make it return numpy.float64 throughout
@@ -280,8 +329,16 @@ def gen_algo_case(rng):
     fails = gen_fails(rng, pop * gens * ((2 * n + 1) if wc else (n + 1)), rng.choice([1, 2, 3])) if rng.random() < 0.6 else []
     names = gen_names(rng, m) if rng.random() < 0.4 else None
     second = rng.choice(["before", "after", "before_other", "after_other"]) if rng.random() < 0.3 else None
+    tols = [rng.choice([0.25, 0.1, 1e-3, 0.05]) for _ in range(n)]
+    # the problem re-parametrised after the algorithm was built and before run() (stage 0: new box as well), and / or while it runs
+    # (tolerances only: right before the evaluate() call of a later generation)
+    stages = None
+    if rng.random() < 0.4:
+        stages = gen_stages(rng, gens + 1, n, tols, p0=0.75, later=0.2, bounds=0.0)
+        if stages[0] and rng.random() < 0.5:
+            stages[0]["bounds"] = [list(rng.choice(BOXES)) for _ in range(n)]
     return {"mode": rng.choice(["EpsMOEA", "NSGAII"]), "wc": wc, "fails": fails, "n": n, "m": m, "names": names, "second": second,
-            "tols": [rng.choice([0.25, 0.1, 1e-3, 0.05]) for _ in range(n)],
+            "tols": tols, "stages": stages, "procs": 1,
             "objs": [{"kind": rng.choice(["quad", "lin", "abs", "sin", "prod"]), "a": [rng.choice(COEF[:8]) for _ in range(n)],
                       "b": rng.choice(COEF[:8])} for _ in range(m)],
             "criteria": [rng.choice(["minimize", "maximize"]) for _ in range(m)], "ret_numpy": False, "int_tol": False,
@@ -326,7 +383,7 @@ def run(ctx):
             case = kwargs["case"]
             self.name = "c14"
             self.parameters = [{'name': 'x%d' % i, 'initial_value': 0.5, 'bounds': [-2.0, 3.0],
-                                'tol': (int(t) if case["int_tol"] and float(t) == int(t) and t != 0 else t)}
+                                'tol': tol_value(case, t)}
                                for i, t in enumerate(case["tols"])]
             if case["flags"].get("int_params"):
                 for q in self.parameters:
@@ -378,6 +435,12 @@ def run(ctx):
                                         "pop", "gens", "types", "int_tol")}
         inp["user_objective_names"] = case.get("names") or ['F%d' % k for k in range(case["m"])]
         inp["second_evaluator_on_the_same_problem"] = case.get("second")
+        if case.get("stages"):
+            inp["problem_parameters_changed_before_batch"] = {str(bi): st for bi, st in enumerate(case["stages"]) if st}
+            inp["tols"] = case["tols"]
+            inp["tolerances_note"] = "'tols' = tolerances when the algorithm was constructed; the entries of problem_parameters_changed_before_batch replace them"
+        if case.get("procs", 1) > 1:
+            inp["max_processes"] = case["procs"]
         inp["design_vectors_given_as"] = ("float ndarray" if case["flags"].get("vec_numpy") else
                                           {"float": "list of float", "int": "list of int", "mixed": "list of int / float (see types)",
                                            "npint": "list of numpy.int64", "npfloat": "list of numpy.float64",
@@ -430,7 +493,6 @@ def run(ctx):
 
     def oracle_wc(case, problem, submitted, upto, n, m):
         """clauses of the property on every design submitted so far (batches 0..upto)"""
-        tols = case["tols"]
         A = analyse(problem)
         nsucc, nfail, ret = A["nsucc"], A["nfail"], A["ret"]
         if not A["tape_ok"]:
@@ -441,7 +503,7 @@ def run(ctx):
             for di, (x, v0) in enumerate(batch):
                 subs.setdefault(id(x), []).append(bi)
 
-        def displaced(v):
+        def displaced(v, tols):
             out = []
             for i in range(n):
                 for disp in (v[i] - tols[i], v[i] + tols[i]):
@@ -456,6 +518,10 @@ def run(ctx):
                     continue
                 done_once.add(id(x))
                 where = {"batch": bi, "design": di, "vector": v0, "after_batch": upto, "submitted_in_batches": subs[id(x)]}
+                # the tolerances problem.parameters held when the design was evaluated (its neighbours are rebuilt at every submission)
+                tols = [float(t) for t in tols_at(case, subs[id(x)][-1])]
+                if case.get("stages"):
+                    where["tolerances_of_the_problem_at_that_evaluation"] = tols
                 if len(x.costs) != m + 1:
                     if len(subs[id(x)]) > 1:
                         fail("design submitted in batches %r has %d cost entries after batch %d (required %d: %d user objectives + 1, "
@@ -485,7 +551,7 @@ def run(ctx):
                 # multiset: the property does not fix their order).  A neighbour whose OWN evaluation failed was re-drawn by
                 # Job (open finding F13): it must have been created at one of the displaced positions and must now sit at the
                 # vector Job drew for it; everything else is judged with that neighbour taken as given.
-                rem = displaced(vf)
+                rem = displaced(vf, tols)
                 clean, redrawn = [], []
                 for k, ch in enumerate(x.children):
                     cv = vkey(ch.vector)
@@ -508,12 +574,23 @@ def run(ctx):
                         else:
                             ok = False
                 if not ok or rem:
-                    around_old = nfail.get(id(x), 0) and vkey(v0) != vkey(vf) and all(c in displaced(v0) for c in clean)
+                    around_old = nfail.get(id(x), 0) and vkey(v0) != vkey(vf) and all(c in displaced(v0, tols) for c in clean)
                     got = [[float(t) for t in ch.vector] for ch in x.children]
+                    stale = None
+                    if case.get("stages") and not redrawn:
+                        for b0 in range(-1, subs[id(x)][-1]):
+                            t0 = [float(t) for t in (case["tols"] if b0 < 0 else tols_at(case, b0))]
+                            if t0 != tols and sorted(clean) == sorted(displaced(vf, t0)):
+                                stale = t0
+                                break
                     if around_old:
                         fail("the design's own evaluation failed and Job re-drew it from %r to %r, but its neighbours %r are displaced from "
                              "the abandoned position (required: -/+ tolerance from the stored design)" % (v0, vf, got),
                              case, "worstcase_design_rerolled", **where)
+                    elif stale is not None:
+                        fail("neighbours %r of %r are displaced by the tolerances %r the problem had before problem.parameters was changed; "
+                             "required -/+ the tolerances %r of the problem at the time of the evaluation" % (got, vf, stale, tols),
+                             case, "worstcase_displacement", **where)
                     else:
                         fail("neighbours %r, required one design displaced by -tolerance and one by +tolerance on every axis of %r"
                              % (got, vf), case, "worstcase_displacement", **where)
@@ -675,6 +752,9 @@ def run(ctx):
         ajob.VectorAndNumbers = VNProxy()
         try:
             with contextlib.redirect_stdout(io.StringIO()):      # Job prints "Job: error: ..." for every handled failure
+                if case.get("procs", 1) > 1:
+                    with contextlib.redirect_stderr(io.StringIO()):      # joblib's progress lines (verbose=1)
+                        return implementation_(case)
                 return implementation_(case)
         finally:
             ajob.VectorAndNumbers = REAL_VN
@@ -693,8 +773,39 @@ def run(ctx):
                 out.append(np.float64(t) if rep.startswith("np") else float(t))
         return out
 
+    def apply_stage(problem, case, st):
+        """re-parametrise the problem the way a user does between two stages of a study"""
+        old = problem.parameters
+        k = len(old)
+
+        def newdict(i):
+            d = dict(old[i])
+            d['tol'] = tol_value(case, st["tols"][i])
+            if st.get("bounds"):
+                d['bounds'] = list(st["bounds"][i])
+            return d
+        how = st["how"]
+        if how == "rebind":                          # a new list of new dicts
+            problem.parameters = [newdict(i) for i in range(k)]
+        elif how == "slice":                         # the same list object, new dicts
+            problem.parameters[:] = [newdict(i) for i in range(k)]
+        else:
+            if how == "rebind_same_dicts":           # a new list of the same dict objects, which are then edited
+                problem.parameters = list(old)
+            elif how != "inplace":
+                raise ValueError(how)
+            if len(set(id(q) for q in old)) < k:     # one dict object stands for several axes: give every axis its own
+                for i in range(k):
+                    problem.parameters[i] = newdict(i)
+            else:
+                for i in range(k):
+                    old[i]['tol'] = tol_value(case, st["tols"][i])
+                    if st.get("bounds"):
+                        old[i]['bounds'] = list(st["bounds"][i])
+
     def implementation_(case):
         n, m = case["n"], case["m"]
+        stages = case.get("stages") or []
         del signed_rec[:]
         problem = Prob(case=case)
         current[0] = problem
@@ -716,6 +827,9 @@ def run(ctx):
             alg.options['verbose_level'] = 0
         if second in ("after", "after_other"):
             alg2 = Direct(problem, evaluator_type=et_other if second == "after_other" else et)
+        for a in (alg, alg2):
+            if a is not None and case.get("procs", 1) > 1:
+                a.options['max_processes'] = case["procs"]
         ev = alg.evaluator
         # "alternate": even batches go through the evaluator built second, odd ones through the one built first (two evaluator
         # objects of one type on one problem; their work lists are empty between batches, so the model's single pair of lists is both)
@@ -748,21 +862,30 @@ def run(ctx):
                 number_new(x.children)
             idss.append([number.get(id(x), 999999) for x in inds])     # the caller's list after the call: must be unchanged
         import copy
-        params0 = copy.deepcopy(problem.parameters)
+        params0 = [copy.deepcopy(problem.parameters)]
         params_changed = []
 
+        def stage(bi):
+            """what the user does to problem.parameters right before the evaluate() call number bi (all evaluator objects exist)"""
+            if bi < len(stages) and stages[bi]:
+                apply_stage(problem, case, stages[bi])
+                params0[0] = copy.deepcopy(problem.parameters)
+
         def check_params(bi):
-            if problem.parameters != params0 and not params_changed:
+            if problem.parameters != params0[0] and not params_changed:
                 params_changed.append(bi)
-                ctx.mismatches.append({"what": "the evaluator modified problem.parameters (the model's tolerances are constants)",
-                                       "correspondence": "c14", "case": {k: case.get(k) for k in ("mode", "wc", "n", "m", "tols", "batches")},
-                                       "batch": bi, "before": params0, "after": copy.deepcopy(problem.parameters)})
+                ctx.mismatches.append({"what": "the evaluator modified problem.parameters (the model's tolerances are those the harness set)",
+                                       "correspondence": "c14", "case": {k: case.get(k) for k in ("mode", "wc", "n", "m", "tols", "batches", "stages")},
+                                       "batch": bi, "before": params0[0], "after": copy.deepcopy(problem.parameters)})
         if case["mode"] == "direct":
             created = []
             resubmits = any(case["again"])
             plain = Direct(problem, evaluator_type=EvaluatorType.SIMPLE) if any(any(p) for p in case["pre"]) else None
+            if plain is not None and case.get("procs", 1) > 1:
+                plain.options['max_processes'] = case["procs"]
             shared = []
             for bi, batch in enumerate(case["batches"]):
+                stage(bi)
                 if case["flags"]["id_collide"]:
                     Individual.counter = 0           # ids collide between batches and with earlier children
                 new = [Individual(np.array(v, dtype=np.float64) if case["flags"]["vec_numpy"] else represent(case, v)) for v in batch]
@@ -796,6 +919,8 @@ def run(ctx):
                         resub.append(x)
                 before = list(inds)
                 number_new(before)
+                if submitted:
+                    stage(len(submitted))        # while the algorithm runs: right before a later generation is evaluated
                 submitted.append([(x, [float(t) for t in x.vector]) for x in before])
                 orig_eval(inds)
                 after_batch(before, inds)
@@ -804,12 +929,15 @@ def run(ctx):
             ev.evaluate = eval_rec
             pyrandom.seed(case["seed"])
             np.random.seed(case["seed"] % (2 ** 32))
+            stage(0)                             # after the algorithm (and its evaluator) was built, before run()
             alg.run()
             if resub:
                 raise AssertionError("the algorithm submitted an already evaluated Individual: outside the model")
             case["batches"] = [[v for (_, v) in b] for b in submitted]
             case["again"] = [[] for _ in submitted]
             case["pre"] = [[False] * len(b) for b in submitted]
+            if stages:
+                case["stages"] = (list(stages) + [None] * len(submitted))[:len(submitted)]      # those that were applied
         if raised is None:
             oracle_proc(case, proc, submitted)
             if any(len(e.individuals) != 0 or len(e.to_evaluate) != 0 for e in evs):
@@ -862,8 +990,13 @@ def run(ctx):
                   ll(c["children"], nl), optl(c["sens"], fl), optl(c["grad"], enc_vec), nl(c["fail"]))
 
     def encode(case, obs, table):
-        c = "{| c_wc := %s; c_comp := %s; c_m := %s; c_tols := %s; c_table := %s; c_batches := %s; c_again := %s; c_pre := %s; c_fails := %s |}" % (
-            bl(case["wc"]), bl(case["comp"]), nl(case["m"]), enc_vec(case["tols"]),
+        # the tolerances at the time of each evaluate() call; one list for all of them = the constant-tolerance runs of the theorems
+        tolss = [[float(t) for t in tols_at(case, bi)] for bi in range(len(case["batches"]))] if case.get("stages") else []
+        tols0 = [float(t) for t in (tolss[0] if tolss else case["tols"])]
+        if not case["wc"] or all([bits(t) for t in tl] == [bits(t) for t in tols0] for tl in tolss):
+            tolss = []
+        c = "{| c_wc := %s; c_comp := %s; c_m := %s; c_tols := %s; c_tolss := %s; c_table := %s; c_batches := %s; c_again := %s; c_pre := %s; c_fails := %s |}" % (
+            bl(case["wc"]), bl(case["comp"]), nl(case["m"]), enc_vec(tols0), ll(tolss, enc_vec),
             ll(table, lambda t: pl(enc_vec(t[0]), enc_vec(t[1]), enc_vec(t[2]), bl(t[3]))),
             ll(case["batches"], lambda b: ll(b, enc_vec)), ll(case["again"], lambda l: ll(l, nl)),
             ll(case["pre"], lambda l: ll(l, bl)), ll(case["tape"], lambda kw: pl(nl(kw[0]), enc_vec(kw[1]))))
@@ -881,7 +1014,10 @@ def run(ctx):
             "cases_with_transient_failures": 0, "failed_calls": 0, "failure_runs_by_length": {}, "failed_calls_on_designs": 0,
             "failed_calls_on_neighbours": 0, "f13_designs": 0,
             "cases_with_colliding_names": 0, "user_objective_names": {}, "cases_with_duplicate_names": 0,
-            "cases_with_a_user_objective_named_sensitivity": 0, "second_evaluator": {}}
+            "cases_with_a_user_objective_named_sensitivity": 0, "second_evaluator": {},
+            "cases_with_problem_parameters_changed_after_construction": 0, "parameters_changed_how": {}, "parameters_changed_before_batch": {},
+            "cases_with_tolerances_differing_between_batches": 0, "cases_with_tolerances_differing_from_construction": 0,
+            "parallel_oracle_only_cases": 0}
 
     def bump(d, k):
         d[str(k)] = d.get(str(k), 0) + 1
@@ -894,14 +1030,31 @@ def run(ctx):
             ctx.count(None, nontrivial=False)
             if len(ctx.mismatches) < 20:
                 ctx.mismatches.append({"what": "the implementation raised %r on a case the model completes" % (e,), "correspondence": "c14",
-                                       "case": {k: case.get(k) for k in ("mode", "wc", "n", "m", "tols", "objs", "batches", "again", "pre", "flags", "seed", "pop", "gens", "names", "second")},
+                                       "case": {k: case.get(k) for k in ("mode", "wc", "n", "m", "tols", "objs", "batches", "again", "pre", "flags", "seed", "pop", "gens", "names", "second", "stages", "procs")},
                                        "traceback": traceback.format_exc()[-1500:]})
+            return
+        if case.get("stages"):
+            hist["cases_with_problem_parameters_changed_after_construction"] += 1
+            tag = ("/parallel" if case.get("procs", 1) > 1 else "") + ("/worst_case" if case["wc"] else "/gradient")
+            for bi, st in enumerate(case["stages"]):
+                if st:
+                    bump(hist["parameters_changed_how"], st["how"] + ("+bounds" if st.get("bounds") else "") + tag)
+                    bump(hist["parameters_changed_before_batch"], bi)
+            tl = [tols_at(case, bi) for bi in range(len(case["batches"]))]
+            hist["cases_with_tolerances_differing_between_batches"] += any(t != tl[0] for t in tl)
+            hist["cases_with_tolerances_differing_from_construction"] += any(t != case["tols"] for t in tl)
+        if case.get("procs", 1) > 1:
+            # parallel evaluation (threads): the order of the objective calls is not determined, so these cases are judged by the
+            # direct oracle only (it ran after every batch inside implementation()); the model is the serial evaluator
+            hist["parallel_oracle_only_cases"] += 1
+            ctx.count(("parallel", case["wc"], case["n"], case["m"], tuple(case["tols"]), repr(case.get("stages")),
+                       tuple(tuple(tuple(v) for v in b) for b in case["batches"])), nontrivial=(len(case["batches"]) >= 2 and obs is not None))
             return
         c, e = encode(case, obs, table)
         cases.append(c)
         expected.append(e)
         mt = {k: case[k] for k in ("mode", "wc", "n", "m", "tols", "objs", "criteria", "batches", "again", "pre", "flags", "types", "fails", "tape")}
-        mt["names"], mt["second"] = case.get("names"), case.get("second")
+        mt["names"], mt["second"], mt["stages"] = case.get("names"), case.get("second"), case.get("stages")
         for k in ("pop", "gens", "seed"):
             if k in case:
                 mt[k] = case[k]
@@ -960,7 +1113,7 @@ def run(ctx):
         key = (case["mode"], case["wc"], case["n"], case["m"], tuple(case["tols"]),
                tuple((o["kind"], tuple(o["a"]), o["b"]) for o in case["objs"]),
                tuple(tuple(tuple(v) for v in b) for b in case["batches"]), tuple(tuple(a) for a in case["again"]), tuple(tuple(a) for a in case["pre"]),
-               tuple(tape_ks), tuple(case.get("names") or ()), case.get("second"))
+               tuple(tape_ks), tuple(case.get("names") or ()), case.get("second"), repr(case.get("stages")))
         ctx.count(key, nontrivial=(len(case["batches"]) >= 2 and obs is not None))
         if len(case["batches"]) == 2 and nd <= 3 and case["mode"] == "direct" and obs is not None and not any(case["again"]):
             ctx.sample(mt, limit=3)
@@ -1057,6 +1210,36 @@ def run(ctx):
         # the evaluator built FIRST processes a design again while a second one exists (its self.n is still m + 1)
         add(gen_case(rng, {"wc": wc, "n": 2, "m": 2, "tols": [0.05, 0.2], "objs": q2, "batches": nb2 + [[]], "again": [[], [0], [0, 2]], "second": "after",
                            "names": ["F", "sensitivity"], "fails": [], "criteria": ["minimize", "maximize"], "ret_numpy": False, "flags": OFF}))
+    # red-team round 6 (RT6_C14_1): the problem re-parametrised after the algorithm / evaluator exists (two-stage study: coarse, then
+    # fine tolerances; binary fractions, so every displaced vector is exact), in every way a user can do it, both evaluators
+    sb = [[[1.0, 2.0, -1.5], [-0.5, 0.25, 3.0]], [[2.5, -1.0, 0.5], [0.125, 0.25, 0.375]], [[0.75, -2.0, 1.0]]]
+    coarse, fine = [0.5, 0.25, 0.125], [0.03125, 0.0625, 0.015625]
+    box2 = [[-5.0, 5.0], [0.0, 10.0], [-1.0, 1.0]]
+    q3 = [{"kind": "quad", "a": [1.0, 0.5, 2.0], "b": 0.0}, {"kind": "prod", "a": [1.0, -1.0, 0.5], "b": 1.0}]
+    for wc in (True, False):
+        base = {"wc": wc, "n": 3, "m": 2, "tols": coarse, "objs": q3, "batches": sb, "fails": [], "criteria": ["minimize", "maximize"],
+                "ret_numpy": False, "flags": OFF}
+        for how in ("rebind", "rebind_same_dicts", "inplace", "slice"):
+            add(gen_case(rng, dict(base, stages=[None, {"how": how, "tols": fine, "bounds": None}, None])))                 # between batches
+            add(gen_case(rng, dict(base, stages=[{"how": how, "tols": fine, "bounds": box2}, None, None])))                 # before the first batch
+        # rebound to an equal list first, the NEW dicts edited in place one batch later; and back to the coarse tolerances
+        add(gen_case(rng, dict(base, stages=[None, {"how": "rebind", "tols": coarse, "bounds": box2}, {"how": "inplace", "tols": fine, "bounds": None}])))
+        add(gen_case(rng, dict(base, stages=[{"how": "rebind", "tols": fine, "bounds": None}, {"how": "rebind", "tols": coarse, "bounds": None},
+                                             {"how": "slice", "tols": [0.0, 1.0, 2.0 ** -30], "bounds": None}])))
+        # a design evaluated under the coarse tolerances is submitted again after the change: its new neighbours use the fine ones
+        add(gen_case(rng, dict(base, batches=sb + [[]], again=[[], [0], [1, 2], [0, 3]],
+                               stages=[None, {"how": "rebind", "tols": fine, "bounds": None}, None, {"how": "rebind", "tols": coarse, "bounds": box2}])))
+        # with transient failures (re-draws use the box of the moment), a re-used batch list, one dict for all axes, a second evaluator
+        add(gen_case(rng, dict(base, fails=[0, 3, 16, 17], stages=[None, {"how": "rebind", "tols": fine, "bounds": box2}, None],
+                               flags=dict(OFF, reuse_list=True))))
+        add(gen_case(rng, dict(base, tols=[0.25, 0.25, 0.25], stages=[None, {"how": "inplace", "tols": fine, "bounds": None}, {"how": "rebind", "tols": coarse, "bounds": None}],
+                               flags=dict(OFF, shared_param=True))))
+        for second in ("after", "alternate", "before_other"):
+            add(gen_case(rng, dict(base, second=second, stages=[None, {"how": "rebind", "tols": fine, "bounds": None}, None])))
+        # parallel evaluation (oracle only)
+        add(gen_case(rng, dict(base, procs=2, stages=[None, {"how": "rebind", "tols": fine, "bounds": None}, None])))
+        add(gen_case(rng, dict(base, procs=3, stages=[{"how": "rebind", "tols": fine, "bounds": box2}, None, {"how": "inplace", "tols": coarse, "bounds": None}],
+                               batches=sb + [[]], again=[[], [0], [1, 2], [0, 3]])))
     # candidate finding, recorded and never judged: the evaluator built SECOND on a problem has self.n = m + 2 (both constructors appended
     # the extra cost), so a design it processes a second time gets a second extra entry (m + 2 costs) in the unchanged code
     try:
@@ -1111,6 +1294,10 @@ def run(ctx):
         add(gen_case(rng))
     for _ in range(ctx.pick(12, 100)):
         add(gen_algo_case(rng))
+    # parallel evaluation (max_processes 2..4, joblib threads), both evaluators, no scripted failures (they are addressed by global call
+    # number): direct oracle only; most of them with problem.parameters changed after construction
+    for _ in range(ctx.pick(24, 200)):
+        add(gen_case(rng, {"procs": rng.choice([2, 2, 3, 4]), "fails": [], "p_stages": 0.7}))
     Individual.calc_signed_costs = orig_calc
     logging.disable(logging.NOTSET)
 
@@ -1130,7 +1317,12 @@ def run(ctx):
                 "algorithm runs, 13 directed corpus cases: 1..3 runs of 1..4 consecutive global call numbers, on designs and on neighbours, with "
                 "resubmission / pre-evaluation / numpy vectors as well); a case is non-trivial when it has at least two "
                 "batches and did not raise; distinct = distinct (mode, evaluator, n, m, tolerances, objectives, batches, resubmitted designs, "
-                "pre-evaluated designs, failed call numbers)"
+                "pre-evaluated designs, failed call numbers); red-team round 6: problem.parameters changed AFTER the algorithm / evaluator objects "
+                "were built (30%% of the generated direct cases, 40%% of the algorithm runs, 28 directed cases): before the first batch / before "
+                "run() and between batches / generations, by rebinding it to a new list of new dicts (half of the changes), to a new list of the "
+                "same dicts edited afterwards, by slice assignment, or by editing the dicts in place, with other tolerances and (half) another box; "
+                "the model gets the tolerances current at each evaluate() call; plus 24 (200) generated and 4 directed cases evaluated in parallel "
+                "(max_processes 2..4), judged by the direct oracle only"
                 % (len(VGRID), TOLS, sorted(set(FAMILIES))))
     hist["f13_reports"] = dict(known_seen)
     ctx.extra.update({"input_distribution": hist})
